@@ -37,7 +37,7 @@ Definition ans15 : json :=
   JObj [("self", JObj [("p", JNum 11%Z); ("self", JObj [("p", JNum 12%Z); ("q", JNum 22%Z)])])].
 
 Lemma f15_repaired : option_map norm (fed_exec ww wg pick1 false true q15) = Some ans15 /\
-                     option_map norm (eval_ref ww wg 5 "Query" 0%Z q15) = Some ans15.
+                     option_map norm (eval_ref ww wg false 9 "Query" 0%Z q15) = Some ans15.
 Proof. vm_compute. split; reflexivity. Qed.
 
 Lemma f15_original : option_map norm (fed_exec ww wg pick1 true true q15) =
@@ -51,7 +51,7 @@ Definition ans16 : json :=
   JObj [("many", JArr [JObj [("id", JNum 5%Z); ("q", JNum 25%Z)]; JNull; JObj [("id", JNum 7%Z); ("q", JNum 27%Z)]])].
 
 Lemma f16_repaired : option_map norm (fed_exec ww wg pick1 false true q16) = Some ans16 /\
-                     option_map norm (eval_ref ww wg 5 "Query" 0%Z q16) = Some ans16.
+                     option_map norm (eval_ref ww wg false 9 "Query" 0%Z q16) = Some ans16.
 Proof. vm_compute. split; reflexivity. Qed.
 
 Lemma f16_original : fed_exec ww wg pick1 false false q16 = None.
